@@ -18,4 +18,22 @@ PROPS = {
             "reading of clause (d): a Bad record is left only by an answer, or by being named again (re-admitted as a fresh questionable entry)",
         ],
     },
+    "C08": {
+        "title": "routing table keeps its shape; only strictly-better trades",
+        "units": ["routing"],
+        "kani": [],
+        "level": "proof",
+        "design_ref": "DESIGN.md §5 C08",
+        "technique": "Verus representation invariant + functional specs on the real bucket.rs/table.rs text (mutual recursion add_node/bucket_node/split_bucket proved with decreases)",
+        "level_text": "Deductive proof, unbounded: Bucket::add_node is proved equal to a functional spec (repeat offer updated in place, else first Bad slot, else first slot of strictly lower standing, else rejected); RoutingTable::{new,add_node,add_nodes,bucket_node,split_bucket} preserve the representation invariant wf (1..160 buckets, placement by shared-prefix length, own id absent, no duplicate handle, no router address) for all tables, offers and clock values; a split loses no live node; an offer removes at most one other live node and only one of strictly lower standing; the statement's clauses are corollary lemmas.",
+        "level_note": "Trusted: Verus/Z3; Bucket::new stub (8 identical never-answered placeholders); leading_bit_count stub (contract proved by Kani harnesses lbc_*: bound, equality, see C09/C20 engine kx); prelude contracts for time/HashSet/SocketAddr; derived Clone/PartialEq; fixed router set (routers is a pub field assigned by the bootstrap task, outside the units); frozen clock per call.",
+        "undecided": [],
+        "assumptions": [
+            "router set fixed after the first insertion (RoutingTable::routers is a pub field written by bootstrap.rs:156, not under contract)",
+            "Bucket::new returns 8 placeholders with last_response == None (external_body stub)",
+            "leading_bit_count(a,b) <= 160 and == 160 iff a == b (external_body stub; proved by Kani where the kx harness lbc_bounds passes)",
+            "frozen clock during one synchronous call",
+            "'at all times' is derived from 'after every operation' by lemma_time_monotone: with the passage of time alone a record's standing only decays, so the live set only shrinks",
+        ],
+    },
 }
